@@ -157,6 +157,8 @@ def run(c, chk):
     # R13.8
     section_path(c, chk)
 
+    buffer_sizes(c, chk)
+
     # R13.9: an include names its file the way a top-level parse does: the resolution rules of C17 are obligations here too
     chk.rule('R13.9', 'the name given to include() is resolved by the rules of C17 (regular-file test, search order, tilde expansion)')
     sub = report.SubCheck(chk, 'R13.9', 'C17')
@@ -229,3 +231,60 @@ def section_path(c, chk):
     if n:
         chk.ok('R13.8', 'section entry: %d transitions' % n, 'section->path = cfg->path before the recursive parse', sample=True)
     chk.floor('R13.8 section-entry transitions', n, 1)
+
+
+def buffer_sizes(c, chk, rid='R13.16'):
+    """an included file is read completely whatever its size - the empty file included: the scanner buffer a source is read
+    through has a positive size (flex's refill loop makes no progress with a buffer of size 0: the scanner never returns)"""
+    chk.rule(rid, 'every scanner buffer is created with a positive size: a constant, or a value shown to be greater than 0 on that path (a buffer sized after an empty file makes the scanner spin)')
+    ex = sym.Explorer(c.modules, max_visits=2, mod_sets=c.mod_sets, max_paths=20000)
+    n = 0
+    bad = None
+    for f in list(c.lexer.funcs.values()) + list(c.confuse.funcs.values()):
+        if f.name in c.unknown_funcs:
+            continue          # a helper is explored as part of its callers (with the sizes they pass)
+        if not any(True for _ in c.deep_calls(f, 'cfg_yy_create_buffer')):
+            continue
+        if f.name in ('cfg_yylex', 'cfg_yyrestart', 'cfg_yy_scan_buffer', 'cfg_yy_scan_bytes', 'cfg_yy_scan_string'):
+            sizes = [call for call in f.calls('cfg_yy_create_buffer')]
+            for call in sizes:          # generated code: the size is the YY_BUF_SIZE constant
+                n += 1
+                a = call.args[1] if len(call.args) > 1 else None
+                if a is None or not a.is_int() or a.ival <= 0:
+                    bad = bad or (f, call, None, 'the generated scanner creates a buffer whose size is not a positive constant')
+            continue
+        for p in ex.explore(f):
+            for e in p.events:
+                if not (e.kind == 'call' and e.name == 'cfg_yy_create_buffer' and e.args and len(e.args) > 1):
+                    continue
+                n += 1
+                sz = e.args[1]
+                if sym.is_const(sz):
+                    if sz[1] <= 0:
+                        bad = bad or (f, e.ins, p, 'the buffer size is the constant %d' % sz[1])
+                    continue
+                core = sz
+                while core[0] == 'bin' and core[1] in ('trunc', 'sext', 'zext'):
+                    core = core[2]
+                positive = False
+                for cn, t, _ in p.assume:
+                    if cn[0] != 'icmp' or not sym.mentions(cn, lambda v: v == core):
+                        continue
+                    left = sym.mentions(cn[2], lambda v: v == core)
+                    other = cn[3] if left else cn[2]
+                    if not sym.is_const(other):
+                        continue
+                    k = other[1]
+                    pred = cn[1] if left else {'sgt': 'slt', 'sge': 'sle', 'slt': 'sgt', 'sle': 'sge', 'ugt': 'ult', 'uge': 'ule', 'ult': 'ugt', 'ule': 'uge'}.get(cn[1], cn[1])
+                    if (pred in ('sgt', 'ugt') and t and k >= 0) or (pred in ('sge', 'uge') and t and k >= 1) or (pred in ('sle', 'ule') and not t and k >= 0) or \
+                            (pred in ('slt', 'ult') and not t and k >= 1) or (pred == 'ne' and t and k == 0 and cn[1] == 'ne') or (pred == 'eq' and not t and k == 0):
+                        positive = True
+                if not positive:
+                    bad = bad or (f, e.ins, p, 'the buffer size is %s, which nothing on the path shows to be greater than 0' % sym.render(sz))
+    if bad is not None:
+        f, ins, p, why = bad
+        chk.fail(rid, 'buffer-size:%s' % f.name, c.where(ins), '%s() creates a scanner buffer of a size that can be 0: %s - an empty source (a 0-byte include file) is then never read to its end, '
+                 'the scanner makes no progress' % (f.name, why), witness=(['path condition: ' + fp.cond_text(p, 6)] if p is not None else None))
+    else:
+        chk.ok(rid, '%d buffer creations' % n, 'each with a positive constant size', sample=True)
+    chk.floor('%s scanner buffer creations' % rid, n, 2)
